@@ -127,6 +127,11 @@ pub fn decode_weight(wmode: u8, r: u8) -> f64 {
         // non-dyadic weights of the order of 1e4 and 1e6 (prices, populations, byte counts)
         13 => 10_007.3 + ((r % 32) as f64) * 1_013.7,
         14 => 1_000_003.1 + ((r % 32) as f64) * 100_019.7,
+        // neighbouring doubles: 1, 1 + 2^-51, 1 + 2^-50. Routes of two or three edges have lengths in
+        // [2, 4), where one ulp is 2^-51, so every such sum is exact and two routes may differ by one
+        // ulp exactly: strictly different lengths that any relative tolerance would call equal.
+        // (Sums of four or more such weights need not be exact: see `ulp_exact`.)
+        15 => 1.0 + ((r % 3) as f64) * (2.0f64).powi(-51),
         // signed weights (trust / distrust networks): sums can cancel exactly
         _ => [1.0, -1.0, 0.5, -0.5, 2.0, -2.0, 1.5, 1.0][(r % 8) as usize],
     }
